@@ -228,11 +228,15 @@ class Gen(object):
                 ins = self._inputs_of_type(('int', 'float', 'bool'))
                 if ins:
                     fs, i = rng.pick(ins)
+                    if rng.chance(0.08):
+                        return ['inget', self._ref(fs, i['name']), rng.pick([0, 1.5])]
                     return ['in', self._ref(fs, i['name'])]
             if c < 0.85:
                 ls = self._lines_of_type(('float', 'int', 'bool'))
                 if ls:
                     fs, l = rng.pick(ls)
+                    if rng.chance(0.12):
+                        return ['lnget', self._ref(fs, l['name']), rng.pick([0, 0.0, 7.5])]
                     return ['ln', self._ref(fs, l['name'])]
             return ['const', rng.pick([0, 1, 2.5, 100.0, 0.005, 1500])]
         c = rng.random()
@@ -276,6 +280,10 @@ class Gen(object):
             if ls:
                 fs, l = rng.pick(ls)
                 return ['ln', self._ref(fs, l['name'])]
+            anyl = self._lines_of_type(('float', 'int', 'bool', 'str', 'enum'))
+            if anyl and rng.chance(0.3):
+                fs, l = rng.pick(anyl)
+                return ['has', self._ref(fs, l['name'])]
             return ['gt', self._num(0), ['const', rng.pick([0, 1, 1500.0])]]
         if c < 0.6:
             return ['gt', self._num(d - 1), self._num(d - 1)]
@@ -571,5 +579,11 @@ def file_text(case_or_items, layout=None, names=None):
                 out.append(f'{key}{delim.rstrip() or "="}')
             else:
                 out.append(f'{key}{delim}{t2}{rng.pick(["", " ", "  "])}')
-    out.append('')
+    tail = rng.pick(['nl', 'nl', 'nl', 'none', 'blanks', 'spaces'])
+    if tail == 'nl':
+        out.append('')
+    elif tail == 'blanks':
+        out += ['', '', '']
+    elif tail == 'spaces':
+        out += ['   ', '']
     return nl.join(out)
